@@ -14,6 +14,7 @@ Specification rules on the implementation's own observation:
   escapes are matched and any other escape is not.
 * `exact-files`: after a successful save of a font with safe paths, the paths at and below the target are
   exactly `expectedPaths` (hence: no remains, optional files iff non-empty).
+  `exact-files:glyph-without-file`: a glyph reported by `Layer::iter()` has no file name (`NOFILE`) and the save succeeded.
 * `fresh-identical`: a successful save is byte-identical to saving the same font into a fresh path.
 -/
 namespace Driver.C09
@@ -73,6 +74,9 @@ def run (inp obs : List String) : Verdict :=
   let s2 := if r = "ok" && safePaths f && expected != actual then
       [("exact-files:" ++ (if expected.length < actual.length then "more" else if expected.length > actual.length then "fewer" else "other"))]
     else []
+  -- a glyph the containers report (`iter()`) without a file name cannot be among the files a successful save wrote
+  let nofile := field obs "NOFILE"
+  let s2 := s2 ++ (if r = "ok" && nofile ≠ "" && nofile ≠ "0" then ["exact-files:glyph-without-file"] else [])
   let fresh := field obs "FRESH"
   let s3 := if r = "ok" && fresh ≠ "ok:same" then ["fresh-identical"] else []
   -- round 3: files of a loaded source arrive; an optional file that exists holds something; the tree reproduces itself
